@@ -149,6 +149,9 @@ fn build_input(case: &Value) -> Result<Built, String> {
             constants::DW_AT_name,
             AttributeValue::String(format!("root{}", u + 1).into_bytes()),
         );
+        if case["split"].as_bool() == Some(true) {
+            unit.get_mut(root).set(constants::DW_AT_GNU_dwo_id, AttributeValue::Data8(0x1234_5678));
+        }
         unit_ids.push(id);
     }
     // entries, in the order of the case (preorder per unit)
@@ -710,6 +713,97 @@ fn summarize(res: &Value, base_unf: Option<&Value>, base_in: &Value) -> Value {
            "nunits": f["order"].as_array().unwrap().len() - retained.len()})
 }
 
+/// Split DWARF: `dwarf` is the split unit's contribution, converted through a skeleton
+/// unit (`ConvertUnit::convert_split` / `FilterUnitSection::new_split` +
+/// `ConvertUnit::convert_split_with_filter`).
+fn convert_split_and_read(
+    dwarf: &read::Dwarf<Slice<'_>>,
+    endian: RunTimeEndian,
+    enc: Encoding,
+    required: Option<&BTreeSet<String>>,
+) -> Value {
+    let addr = |a: u64| Some(Address::Constant(a));
+    // the skeleton: one unit whose root carries the dwo id and name
+    let mut skel = write::Dwarf::new();
+    let sid = skel.units.add(Unit::new(enc, LineProgram::none()));
+    {
+        let unit = skel.units.get_mut(sid);
+        let root = unit.root();
+        unit.get_mut(root).set(constants::DW_AT_GNU_dwo_id, AttributeValue::Data8(0x1234_5678));
+        unit.get_mut(root).set(constants::DW_AT_GNU_dwo_name, AttributeValue::String(b"x.dwo".to_vec()));
+    }
+    let mut skel_sections = Sections::new(RawRefVec(EndianVec::new(endian)));
+    if let Err(e) = skel.write(&mut skel_sections) {
+        return conv_err("skeleton", e);
+    }
+    let skel_dwarf = load(&skel_sections, endian);
+    let mut out = write::Dwarf::new();
+    let mut sections = Sections::new(RawRefVec(EndianVec::new(endian)));
+    {
+        let mut convert = match out.convert(&skel_dwarf) {
+            Ok(c) => c,
+            Err(e) => return conv_err("convert_new", e),
+        };
+        loop {
+            let (mut unit, _root_entry) = match convert.read_unit() {
+                Ok(Some(x)) => x,
+                Ok(None) => break,
+                Err(e) => return conv_err("convert_read_unit", e),
+            };
+            let mut convert_split = match required {
+                None => match unit.convert_split(dwarf) {
+                    Ok(c) => c,
+                    Err(e) => return conv_err("convert_split", e),
+                },
+                Some(req) => {
+                    let mut filter = match write::FilterUnitSection::new_split(dwarf, unit.read_unit) {
+                        Ok(f) => f,
+                        Err(e) => return conv_err("filter_new", e),
+                    };
+                    loop {
+                        let mut funit = match filter.read_unit() {
+                            Ok(Some(u)) => u,
+                            Ok(None) => break,
+                            Err(e) => return conv_err("filter_read_unit", e),
+                        };
+                        let mut entry = funit.null_entry();
+                        loop {
+                            match funit.read_entry(&mut entry) {
+                                Ok(true) => {}
+                                Ok(false) => break,
+                                Err(e) => return conv_err("filter_read_entry", e),
+                            }
+                            let name = entry_name(entry.read_unit, &entry.read_entry);
+                            if req.contains(&name) {
+                                funit.require_entry(entry.offset);
+                            }
+                        }
+                    }
+                    match unit.convert_split_with_filter(filter) {
+                        Ok(c) => c,
+                        Err(e) => return conv_err("convert_split", e),
+                    }
+                }
+            };
+            let (mut split_unit, split_root) = match convert_split.read_unit() {
+                Ok(x) => x,
+                Err(e) => return conv_err("convert_read_unit", e),
+            };
+            if let Err(e) = split_unit.convert(split_root, &addr) {
+                return conv_err("convert", e);
+            }
+        }
+    }
+    if let Err(e) = out.write(&mut sections) {
+        return conv_err("write", e);
+    }
+    let back = load(&sections, endian);
+    match forest(&back) {
+        Ok(f) => json!({"ok": true, "forest": f}),
+        Err(e) => json!({"ok": false, "stage": "readback", "err": e}),
+    }
+}
+
 fn replay(case: &Value) -> Value {
     let built = match build_input(case) {
         Ok(b) => b,
@@ -721,7 +815,13 @@ fn replay(case: &Value) -> Value {
         Err(e) => return json!({"build": e}),
     };
     let flow = case["flow"].as_str().unwrap_or("convert");
-    let unf = convert_and_read(&dwarf, built.endian, None, flow, None);
+    let split = case["split"].as_bool() == Some(true);
+    let enc = encoding_of(case);
+    let unf = if split {
+        convert_split_and_read(&dwarf, built.endian, enc, None)
+    } else {
+        convert_and_read(&dwarf, built.endian, None, flow, None)
+    };
     let base_unf = if unf["ok"].as_bool() == Some(true) { Some(&unf["forest"]) } else { None };
     let mut runs = Vec::new();
     if let Some(exp) = case["exp"].as_array() {
@@ -730,7 +830,11 @@ fn replay(case: &Value) -> Value {
                 .as_array()
                 .map(|a| a.iter().map(|v| format!("e{}", v.as_i64().unwrap_or(0))).collect())
                 .unwrap_or_default();
-            let fil = convert_and_read(&dwarf, built.endian, Some(&req), flow, None);
+            let fil = if split {
+                convert_split_and_read(&dwarf, built.endian, enc, Some(&req))
+            } else {
+                convert_and_read(&dwarf, built.endian, Some(&req), flow, None)
+            };
             runs.push(summarize(&fil, base_unf, &input));
         }
     }
